@@ -792,16 +792,12 @@ theorem dictOf_of_rep (f : File) (L : Loaded) (hu : UniqueRefs L.links) (cs : Li
   rw [hA, hstep, hT]
 
 
-/-! ### from the entries of the active tables to the links -/
-
-/-- the parent reference stored in an entry (`none` = root) -/
-def pref (e : Entry) : Option Ref := if e.parentIdx = 0 then none else some (e.parentIdx, e.parentOff)
+/-! ### from the entries of the active tables to the links (`pref`, `nonFree`, `firstIdx`, `ActiveOf`, `actEntries`, `ParentOK`
+    are defined in `Hv.HyperVEnc`) -/
 
 def keyD (e : Entry) : Bytes := match keyOf e with | .ok k => k | .error _ => []
 
 def mkLink (ie : Nat × Entry) : Link := { parent := pref ie.2, key := keyD ie.2, idx := ie.1, entry := ie.2 }
-
-def nonFree (es : List Entry) : List Entry := es.filter (fun e => e.kind ≠ tFree)
 
 /-- all linkable entries (table index, entry) of the active tables, in linking order -/
 def allEntries : List (Nat × List KeyTable) → List (Nat × Entry)
@@ -993,9 +989,6 @@ theorem tree_decode_loaded (f : File) (reg : Reg) (hload : load f = .ok reg) (hn
 
 /-! ### the registry of a list of tables with stale competitors -/
 
-/-- indices in order of first appearance -/
-def firstIdx (is : List Nat) : List Nat := is.foldl (fun ks i => if i ∈ ks then ks else ks ++ [i]) []
-
 theorem foldl_register_keys (ts : List KeyTable) : ∀ acc : List (Nat × List KeyTable),
     (ts.foldl (fun acc t => register t acc) acc).map Prod.fst =
       (ts.map KeyTable.index).foldl (fun ks i => if i ∈ ks then ks else ks ++ [i]) (acc.map Prod.fst) := by
@@ -1041,12 +1034,6 @@ theorem lookup_of_mem {α : Type} : ∀ (l : List (Nat × α)), (l.map Prod.fst)
       simp only [List.lookup, hij]
       exact ih hn.2 i a h
 
-/-- `act` = the tables in use: one per index, in order of the index's first registration, each with a strictly larger
-    sequence number than every other registered table of its index -/
-def ActiveOf (ts act : List KeyTable) : Prop :=
-  act.map KeyTable.index = firstIdx (ts.map KeyTable.index) ∧
-  ∀ t ∈ act, t ∈ ts ∧ ∀ u ∈ ts, u.index = t.index → u = t ∨ u.seq < t.seq
-
 theorem registry_head (ts act : List KeyTable) (h : ActiveOf ts act) :
     ∀ p ∈ registerAll ts, ∃ t ∈ act, t.index = p.1 ∧ ∃ rest, p.2 = t :: rest := by
   intro p hp
@@ -1070,9 +1057,6 @@ theorem registry_head (ts act : List KeyTable) (h : ActiveOf ts act) :
     rcases (h.2 t ht).2 hd hhd.1 (by rw [hhd.2, hti]) with e | e
     · subst e; exact ⟨rest, rfl⟩
     · omega
-
-/-- the linkable entries of the tables in use -/
-def actEntries (act : List KeyTable) : List (Nat × Entry) := act.flatMap (fun t => (nonFree t.entries).map (fun e => (t.index, e)))
 
 theorem allEntries_of_heads : ∀ (kts : List (Nat × List KeyTable)) (act : List KeyTable),
     kts.map Prod.fst = act.map KeyTable.index → (act.map KeyTable.index).Nodup →
@@ -1144,10 +1128,6 @@ theorem activeTable_of_act (ts act : List KeyTable) (h : ActiveOf ts act) (t : K
 
 
 /-! ### `Encodes` and the decode theorem over stored tables -/
-
-/-- the parent reference of an entry resolves inside the tables in use -/
-def ParentOK (act : List KeyTable) (e : Entry) : Prop :=
-  e.parentIdx = 0 ∨ ∃ t ∈ act, t.index = e.parentIdx ∧ ∃ p ∈ t.entries, p.offset = e.parentOff
 
 /-- what a file stores, above the object-table walk: `tables` = every key table the walk registers, in that order
     (stale copies included); `act` = the tables in use; `fos` = the File objects (offset, size), newest first -/
